@@ -25,6 +25,37 @@ claims = {
    ref="DESIGN.md section 4.C20"),
 }
 
+claims.update({
+ "C02": dict(
+   text="Proof of the sender-side QoS 2 stage mechanism the exactly-once argument rests on: every error returned before PUBREC carries the PUBLISH-stage retry closure over the same message, every result after PUBREC is nil or carries the PUBREL-stage closure over the same message, the PUBREL stage never packs or writes a PUBLISH and writes at most the PUBREL packet with the message's id, success only after a receive on the channel registered under that id.",
+   note="Not yet under contract: RetryClient.Retry re-queue discipline (exact re-queue of continuation + not-yet-attempted entries). The broker-side receiver rules (discard duplicate id, release on PUBREL) are assumed; composing the per-function contracts into 'delivered exactly once' is a paper lemma (DESIGN.md 4.C02). Closure invariants (captured retry variables hold the stage closures over the same message) are checked at the direct call site and assumed for calls through the retry queue.",
+   ref="DESIGN.md section 4.C02"),
+ "C04": dict(
+   text="Proof of the per-packet transition of the serve loop for every packet kind, every flag/body and every content of the QoS 2 buffer: exactly which handler calls and writes happen in an iteration (QoS0: at most one hand-over, no write; QoS1: hand-over then PUBACK with the message id; QoS2: PUBREC, no hand-over, message stored; PUBREL of a stored id: hand-over of the stored message, then PUBCOMP, entry removed; PUBREL of an unknown id and every acknowledgement kind: nothing) with whole-map postconditions on the buffer.",
+   note="The induction over the packet sequence (one hand-over per message for any history) is a lemma over the iteration contract, written in DESIGN.md 4.C04, not mechanised. Trusted: handler does not modify the message before returning; io.Writer contract; Parse/Pack callee contracts (discharged under C05/C06).",
+   ref="DESIGN.md section 4.C04"),
+ "C07": dict(
+   text="Proof of the three guarantees G1-G3: requesters (publish QoS1/2, PUBREL stage, subscribe, unsubscribe) register a fresh waiter channel under the request's own packet id before writing and return success only after a receive on that very channel; the serve loop sends an acknowledgement only to the channel looked up under (kind,id), non-blocking, and the five signaller lookups return exactly the registered channel and remove exactly that key (whole-map postcondition); SUBACK count mismatch yields ErrInvalidSubAck and closes the transport, otherwise granted QoS is copied back per filter in request order.",
+   note="The cross-goroutine composition (a channel is reachable only through its map entry until serve removes it) is a rely/guarantee lemma in DESIGN.md 4.C07; id uniqueness is imported from C15. Channel invariants (waiter channels carry non-nil packets and are never closed) are assumed at receives and are obligations at sends/closes. Not yet under contract: Ping, Connect.",
+   ref="DESIGN.md section 4.C07"),
+ "C11": dict(
+   text="Proof of wait-set contracts for publish (both QoS 2 stages), subscribe and unsubscribe: the single blocking select of each call waits on the client's connClosed channel, on Done() of the call's own context and on its own waiter; there is no bare blocking send/receive; the cancel branch returns an error whose cause is that context's Err(), the closed branch ErrClosedTransport.",
+   note="Restricted claim: 'returns promptly' is liveness and is not decided (needs Transport.Write/Close and callbacks to return). Not yet under contract: Ping, Connect, Disconnect, reconnect client Connect/Disconnect, reader goroutine exit sequence.",
+   ref="DESIGN.md section 4.C11"),
+ "C12": dict(
+   text="Proof that publishImpl keeps a caller-supplied id and otherwise assigns one newID result, sets Dup to its dup argument, leaves topic/QoS/retain/payload untouched and writes exactly specPublish(message); BaseClient.Publish passes dup=false; the PUBLISH-stage retry closure re-enters publishImpl with the same message object and dup=true; QoS 0 errors never carry a retry handle; after PUBREC no PUBLISH is packed or written, only PUBREL with the same id.",
+   note="Not yet under contract: the deferred copy made by RetryClient.publish. Trusted as for C05.",
+   ref="DESIGN.md section 4.C12"),
+ "C14": dict(
+   text="Proof that newTopicFilter accepts exactly the filters valid by a first-order definition of MQTT 4.7.1 over the levels strings.Split returns, and that Match returns exactly the first-order level-wise definition ('+' one level, '#' parent and descendants, literal otherwise), for all strings and all depths (quantified loop invariants).",
+   note="Trusted: strings.Split is a deterministic function returning at least one part; strings.Contains(s, one byte) iff some index holds it. Not yet under contract: ServeMux.Handle/Serve dispatch.",
+   ref="DESIGN.md section 4.C14"),
+ "C19": dict(
+   text="Proof of the wrappers: nil and io.EOF pass through, otherwise a fresh *Error with Err == cause (and for wrapErrorWithRetry a fresh *errorWithRetry embedding it whose retry function is the one given); every interrupted QoS>=1 publish, subscribe, unsubscribe returns an error implementing ErrorWithRetry whose handle is the closure re-issuing that same request (same message object / same filter slices) on the client it is given; documented sentinel causes (ErrClosedTransport, ctx.Err(), ErrNotConnected, ErrInvalidSubAck).",
+   note="Not yet under contract: (*Error).Is chain walk (soundness/completeness), RequestTimeoutError. Assumption A-W: Transport.Write never returns io.EOF.",
+   ref="DESIGN.md section 4.C19"),
+})
+
 checks = []
 for pid in ids:
     if pid not in claims:
